@@ -1,4 +1,18 @@
-/-! probe: nbhttp.Response writer (response.go) — byte-level model of Write/writeChunk/Flush/flush/eoncodeHead -/
+/-! M6 HttpResp: byte-level model of nbhttp.Response (nbhttp/response.go) and of
+ServerProcessor.flushResponse (nbhttp/processor.go) — WriteHeader, Write/WriteString, writeChunk,
+contentLength, ReadFrom, Flush, checkChunked, eoncodeHead, flush.
+
+One helper per Go paragraph.  The model describes the tree WITH the repairs of defects #7 (Write's
+return value at the 64 KiB boundary), #8 (writeChunk freed the head buffer and went on using it),
+#16 (Malloc(totalSize) used without resetting its length), the three ReadFrom repairs and the late
+trailer values and the unknown status codes.  Behaviour that is still wrong in the tree is kept as it
+is (Flush on an identity response without Content-Length, body bytes on HEAD, ReadFrom after Write):
+see Properties/C09.
+
+Conn writes are an explicit environment: `Cfg.failAt = k` makes the k-th conn write call and all
+later ones fail (a dead connection); `failAt = 0` never fails.  The head encoder is a field of `Cfg`
+(`head`), so that the framing theorems hold for EVERY head byte string; `headBytes` is the concrete
+encoder of the Go code. -/
 namespace Resp
 
 abbrev Bytes := List UInt8
@@ -6,17 +20,12 @@ def str (s : String) : Bytes := s.toList.map (fun c => UInt8.ofNat c.toNat)
 def CRLF : Bytes := [13, 10]
 def maxPacket : Nat := 65536
 
-structure Cfg where
-  proto : Bytes                 -- request.Proto
-  proto11 : Bool                -- request.ProtoAtLeast(1,1)
-  reqClose : Bool               -- request.Close
-  statusText : Nat → Bytes      -- http.StatusText (parameter)
-  junk : UInt8                  -- content of fresh pool memory (parameter; arbitrary in theorems)
+abbrev Header := List (Bytes × List Bytes)
 
 structure R where
   status : Bytes := []
   statusCode : Nat := 0
-  header : List (Bytes × List Bytes) := []
+  header : Header := []
   trailer : List (Bytes × Bytes) := []
   buffer : Option Bytes := none
   bodyBuffer : Option Bytes := none
@@ -26,47 +35,90 @@ structure R where
   chunkChecked : Bool := false
   headEncoded : Bool := false
   hasBody : Bool := false
-  wire : List Bytes := []       -- conn.Write calls, in order (ghost)
+  wire : List Bytes := []       -- successful conn writes, in order
+  attempts : Nat := 0           -- conn write calls so far
 
-def hget (h : List (Bytes × List Bytes)) (k : Bytes) : List Bytes :=
+structure Cfg where
+  proto : Bytes                 -- request.Proto
+  proto11 : Bool                -- request.ProtoAtLeast(1,1)
+  reqClose : Bool               -- request.Close
+  failAt : Nat := 0             -- first failing conn write call (1-based); 0 = never
+  sendfile : Bool := false      -- the conn offers Sendfile and the engine does not disable it
+  head : R → Bytes              -- the head encoder (see `headBytes`)
+
+/-! ### header map (all keys canonical: the harness passes http.CanonicalHeaderKey's answer) -/
+
+def hget (h : Header) (k : Bytes) : List Bytes :=
   match h.find? (·.1 == k) with | some (_, v) => v | none => []
-def hfirst (h : List (Bytes × List Bytes)) (k : Bytes) : Bytes := (hget h k).headD []
-def hdel (h : List (Bytes × List Bytes)) (k : Bytes) := h.filter (·.1 != k)
-def hset (h : List (Bytes × List Bytes)) (k v : Bytes) :=
+def hfirst (h : Header) (k : Bytes) : Bytes := (hget h k).headD []
+def hdel (h : Header) (k : Bytes) : Header := h.filter (·.1 != k)
+def hset (h : Header) (k v : Bytes) : Header :=
   if h.any (·.1 == k) then h.map (fun e => if e.1 == k then (k, [v]) else e) else h ++ [(k, [v])]
+def hadd (h : Header) (k v : Bytes) : Header :=
+  if h.any (·.1 == k) then h.map (fun e => if e.1 == k then (k, e.2 ++ [v]) else e) else h ++ [(k, [v])]
 
 def kCL := str "Content-Length"
 def kTE := str "Transfer-Encoding"
 def kTrailer := str "Trailer"
+def kCT := str "Content-Type"
+def kConn := str "Connection"
+def kDate := str "Date"
+
+/-! ### numbers -/
 
 def isNum (c : UInt8) : Bool := 48 ≤ c.toNat && c.toNat ≤ 57
-/-- strconv.ParseInt(s,10,64) for non-negative decimal strings (none = error or negative) -/
-def parseDec (b : Bytes) : Option Nat :=
-  let d := match b with | 43 :: r => r | _ => b
-  if d ≠ [] && d.all isNum then some (d.foldl (fun a c => a * 10 + (c.toNat - 48)) 0) else none
+
+/-- strconv.ParseInt(s, 10, 64): optional sign, digits, range check. -/
+def parseInt (b : Bytes) : Option Int :=
+  let (neg, d) := match b with
+    | 43 :: r => (false, r)
+    | 45 :: r => (true, r)
+    | _ => (false, b)
+  if d ≠ [] && d.all isNum then
+    let v : Nat := d.foldl (fun a c => a * 10 + (c.toNat - 48)) 0
+    if neg then (if v ≤ 9223372036854775808 then some (-(v : Int)) else none)
+    else (if v ≤ 9223372036854775807 then some (v : Int) else none)
+  else none
 
 def decDigits : Nat → Nat → Bytes
   | 0, _ => []
   | f+1, n => if n < 10 then [UInt8.ofNat (48 + n)] else decDigits f (n / 10) ++ [UInt8.ofNat (48 + n % 10)]
+/-- strconv.FormatInt(n, 10) -/
 def fmtDec (n : Nat) : Bytes := decDigits (n + 1) n
 
 def hexDigit (n : Nat) : UInt8 := if n < 10 then UInt8.ofNat (48 + n) else UInt8.ofNat (87 + n)
 def hexDigits : Nat → Nat → Bytes
   | 0, _ => []
   | f+1, n => if n < 16 then [hexDigit n] else hexDigits f (n / 16) ++ [hexDigit (n % 16)]
-/-- Response.formatInt(n, 16) -/
+/-- Response.formatInt(n, 16): empty for n > 0x7FFFFFFF -/
 def fmtHex (n : Nat) : Bytes := if n > 0x7FFFFFFF then [] else hexDigits (n + 1) n
 
-def send (r : R) (b : Bytes) : R := { r with wire := r.wire ++ [b] }
+/-! ### the connection -/
 
-def writeHeader (g : Cfg) (r : R) (code : Nat) : R :=
+/-- one conn.Write call: fails from the `failAt`-th call on -/
+def send (g : Cfg) (r : R) (b : Bytes) : R × Bool :=
+  let r := { r with attempts := r.attempts + 1 }
+  if g.failAt ≠ 0 && r.attempts ≥ g.failAt then (r, false) else ({ r with wire := r.wire ++ [b] }, true)
+
+/-! ### WriteHeader, checkChunked, eoncodeHead -/
+
+/-- Response.WriteHeader; `st` = http.StatusText(code) (input) -/
+def writeHeader (r : R) (code : Nat) (st : Bytes) : R :=
   if r.statusCode == 0 && code != 0 then
-    let st := g.statusText code
-    let r := if st ≠ [] then { r with status := st, statusCode := code } else r
+    let r := if 100 ≤ code && code ≤ 999 then { r with status := st, statusCode := code } else r
     let cl := hfirst r.header kCL
-    if cl ≠ [] && (parseDec cl).isNone then { r with header := hdel r.header kCL } else r
+    if cl ≠ [] then
+      match parseInt cl with
+      | some v => if v ≥ 0 then r else { r with header := hdel r.header kCL }
+      | none => { r with header := hdel r.header kCL }
+    else r
   else r
 
+def stOK : Bytes := str "OK"
+/-- WriteHeader(http.StatusOK) -/
+def writeHeader200 (r : R) : R := writeHeader r 200 stOK
+
+/-- Response.checkChunked -/
 def checkChunked (g : Cfg) (r : R) : R :=
   if r.chunkChecked then r else
   let r := { r with chunkChecked := true }
@@ -74,154 +126,297 @@ def checkChunked (g : Cfg) (r : R) : R :=
     { r with chunked := true, header := hdel r.header kCL }
   else
     let c1 := g.proto11 && hfirst r.header kCL == [] && r.statusCode != 204 && r.statusCode != 304
-    let c := c1 || (!c1 && (hget r.header kTrailer) ≠ [])
+    let c := c1 || (hget r.header kTrailer) ≠ []
     if c then { r with chunked := true, header := hdel (hset r.header kTE (str "chunked")) kCL } else r
 
-def eoncodeHead (g : Cfg) (r : R) : R :=
-  if r.headEncoded then r else
-  let r := { r with headEncoded := true }
+def datePlaceholder : Bytes := List.replicate 29 64
+
+def statusLine (g : Cfg) (r : R) : Bytes :=
   let sc := r.statusCode
-  let d := g.proto ++ [32, UInt8.ofNat (48 + sc / 100), UInt8.ofNat (48 + sc % 100 / 10), UInt8.ofNat (48 + sc % 10), 32]
-            ++ r.status ++ CRLF
-  let d := if r.hasBody && hget r.header (str "Content-Type") == [] then
+  g.proto ++ [32, UInt8.ofNat (48 + sc / 100), UInt8.ofNat (48 + (sc % 100) % 256 / 10), UInt8.ofNat (48 + sc % 10), 32]
+    ++ r.status ++ CRLF
+
+def headerLine (k v : Bytes) : Bytes := k ++ [58, 32] ++ v ++ CRLF
+
+/-- the header lines of the non-trailer keys, in map order -/
+def headerLines (tkeys : List Bytes) (h : Header) : Bytes :=
+  (h.map fun e => if tkeys.contains e.1 then [] else (e.2.map (headerLine e.1)).flatten).flatten
+
+/-- the trailer map built by eoncodeHead: declared keys, value = first value in the header map or "" -/
+def trailerOf (h : Header) : List (Bytes × Bytes) :=
+  (hget h kTrailer).eraseDups.map fun k => (k, hfirst h k)
+
+/-- the bytes eoncodeHead produces (status line, automatic headers, header lines, blank line) -/
+def headBytes (g : Cfg) (r : R) : Bytes :=
+  let d := statusLine g r
+  let d := if r.hasBody && hget r.header kCT == [] then
               d ++ str "Content-Type: text/plain; charset=utf-8\r\n" else d
   let d := if !r.chunked && hget r.header kCL == [] then
               let l := match r.bodyBuffer with | some b => b.length | none => 0
               d ++ str "Content-Length: " ++ (if r.hasBody && l > 0 then fmtDec l else str "0") ++ CRLF
            else d
-  let d := if g.reqClose && hget r.header (str "Connection") == [] then d ++ str "Connection: close\r\n" else d
-  -- Date: the harness always sets it, so no time.Now branch here
-  let tkeys := hget r.header kTrailer
-  let isTr (k : Bytes) := tkeys.contains k
-  let d := r.header.foldl (fun d (e : Bytes × List Bytes) =>
-      if isTr e.1 then d else e.2.foldl (fun d v => d ++ e.1 ++ str ": " ++ v ++ CRLF) d) d
-  let trailer := tkeys.eraseDups.map (fun k => (k, hfirst r.header k))
-  { r with buffer := some (d ++ CRLF), trailer := trailer }
+  let d := if g.reqClose && hget r.header kConn == [] then d ++ str "Connection: close\r\n" else d
+  let d := if hget r.header kDate == [] then d ++ headerLine kDate datePlaceholder else d
+  d ++ headerLines (hget r.header kTrailer) r.header ++ CRLF
 
-def writeChunk (g : Cfg) (r : R) (data : Bytes) : R × Nat :=
-  let l := data.length
-  let r := eoncodeHead g r
-  let pbuf := r.buffer
-  let r := { r with buffer := none }
-  let lenStr := fmtHex l
-  let total := lenStr.length + l + 4 + (match pbuf with | some b => b.length | none => 0)
-  if total < maxPacket then
-    let base := match pbuf with | some b => b | none => List.replicate total g.junk   -- Malloc(total) NOT reset
-    ({ r with buffer := some (base ++ lenStr ++ CRLF ++ data ++ CRLF) }, l)
-  else
-    match pbuf with
-    | some b =>
-      let r := send r (b ++ lenStr ++ CRLF)
-      let nb := data ++ CRLF                    -- (freed buffer reused: ownership ghost elsewhere)
-      if nb.length < maxPacket then ({ r with buffer := some nb }, l) else (send r nb, l)
-    | none =>
-      let nb := lenStr ++ CRLF ++ data ++ CRLF
-      if nb.length < maxPacket then ({ r with buffer := some nb }, l) else (send r nb, l)
+/-- Response.eoncodeHead -/
+def eoncodeHead (g : Cfg) (r : R) : R :=
+  if r.headEncoded then r else
+  { r with headEncoded := true, buffer := some (g.head r), trailer := trailerOf r.header }
 
-inductive WRes | ok (n : Nat) | errCL | errParse
+/-! ### Write -/
+
+inductive WRes | ok (n : Nat) | errCL | errParse | errConn | errCopy (n : Nat) | panic
   deriving Repr, DecidableEq
 
-def write (g : Cfg) (r : R) (data : Bytes) : R × WRes :=
-  let l := data.length
-  if l == 0 then (r, .ok 0) else
-  let r := checkChunked g (writeHeader g r 200)
-  let r := { r with hasBody := true }
-  if r.chunked then let (r, n) := writeChunk g r data; (r, .ok n) else
-  -- contentLength()
-  let (r, clE) : R × Option Nat :=
-    if r.contentLen > 0 then (r, some r.contentLen)
+def chunkHdr (l : Nat) : Bytes := fmtHex l ++ CRLF
+
+/-- writeChunk, step 3: append data and tail; keep if still small, else send and free -/
+def chunkTail (g : Cfg) (r : R) (nb : Bytes) (data : Bytes) : R × WRes :=
+  let nb := nb ++ data ++ CRLF
+  if nb.length < maxPacket then ({ r with buffer := some nb }, .ok data.length)
+  else
+    let (r, ok) := send g r nb
+    if ok then (r, .ok data.length) else (r, .errConn)
+
+/-- Response.writeChunk (`totalSize` = length string + data + 4 + pending head buffer) -/
+def writeChunk (g : Cfg) (r : R) (data : Bytes) : R × WRes :=
+  let r := eoncodeHead g r
+  match r.buffer with
+  | some b =>
+    let r := { r with buffer := none }
+    if (fmtHex data.length).length + data.length + 4 + b.length < maxPacket then
+      ({ r with buffer := some (b ++ chunkHdr data.length ++ data ++ CRLF) }, .ok data.length)
     else
-      let cl := hfirst r.header kCL
-      if cl == [] then (r, some 0)
-      else match parseDec cl with
-        | some v => ({ r with contentLen := v }, some v)
-        | none => (r, none)
-  match clE with
-  | none => (r, .errParse)
-  | some cl =>
-  if cl > 0 && r.bodyWritten + l > cl then (r, .errCL) else
-  -- head handling
-  let (r, direct) : R × Bool :=
-    if cl > 0 then
-      let r := eoncodeHead g r
-      let pbuf := r.buffer
+      let (r, ok) := send g r (b ++ chunkHdr data.length)
+      if ok then chunkTail g r [] data else (r, .errConn)
+  | none =>
+    if (fmtHex data.length).length + data.length + 4 < maxPacket then
+      ({ r with buffer := some (chunkHdr data.length ++ data ++ CRLF) }, .ok data.length)
+    else chunkTail g r (chunkHdr data.length) data
+
+/-- Response.contentLength: `none` = strconv error -/
+def contentLength (r : R) : R × Option Nat :=
+  if r.contentLen > 0 then (r, some r.contentLen)
+  else
+    let cl := hfirst r.header kCL
+    if cl == [] then (r, some 0)
+    else match parseInt cl with
+      | some v => ({ r with contentLen := v.toNat }, some v.toNat)
+      | none => (r, none)
+
+/-- Write, paragraph `if cl > 0 { ... }`: the pending head becomes the body buffer or is sent. `false` = conn error -/
+def takeHead (g : Cfg) (r : R) (l cl : Nat) : R × Bool :=
+  if cl > 0 then
+    let r := eoncodeHead g r
+    match r.buffer with
+    | none => (r, true)
+    | some b =>
       let r := { r with buffer := none }
-      match pbuf with
-      | none => (r, false)
-      | some b =>
-        if b.length + l < maxPacket then ({ r with bodyBuffer := some b }, false)
-        else (send r b, false)
-    else (r, false)
-  let _ := direct
-  -- APPEND_BODY
+      if b.length + l < maxPacket then ({ r with bodyBuffer := some b }, true)
+      else send g r b
+  else (r, true)
+
+/-- Write, tail: append to the body buffer; with a Content-Length flush it when it reaches 64 KiB -/
+def appendTail (g : Cfg) (r : R) (bb0 data : Bytes) (cl : Nat) : R × WRes :=
+  let bb := bb0 ++ data
+  let r := { r with bodyWritten := r.bodyWritten + data.length, bodyBuffer := some bb }
+  if cl > 0 && bb.length ≥ maxPacket then
+    let (r, ok) := send g r bb
+    if ok then ({ r with bodyBuffer := some [] }, .ok data.length) else ({ r with bodyBuffer := none }, .errConn)
+  else (r, .ok data.length)
+
+/-- conn.Write(data) as the function's return value -/
+def sendDirect (g : Cfg) (r : R) (data : Bytes) : R × WRes :=
+  let (r, ok) := send g r data
+  if ok then (r, .ok data.length) else (r, .errConn)
+
+/-- Write: "send the cached buffer first" (`bodyBuffer = some bb0`) -/
+def sendCached (g : Cfg) (r : R) (bb0 : Bytes) : R × Bool :=
+  if bb0.length > 0 then
+    let (r, ok) := send g r bb0
+    if ok then ({ r with bodyBuffer := some [] }, true) else ({ r with bodyBuffer := none }, false)
+  else (r, true)
+
+/-- Write, label APPEND_BODY -/
+def appendBody (g : Cfg) (r : R) (data : Bytes) (cl : Nat) : R × WRes :=
+  let l := data.length
   match r.bodyBuffer with
   | none =>
-    if cl > 0 && l ≥ maxPacket then
-      (send { r with bodyWritten := r.bodyWritten + l } data, .ok l)
-    else
-      let bb := data
-      let r := { r with bodyWritten := r.bodyWritten + l, bodyBuffer := some bb }
-      if cl > 0 && bb.length ≥ maxPacket then (send { r with bodyBuffer := some [] } bb, .ok bb.length)
-      else (r, .ok l)
+    if cl > 0 && l ≥ maxPacket then sendDirect g { r with bodyWritten := r.bodyWritten + l } data
+    else appendTail g r [] data cl
   | some bb0 =>
-    let (r, bb0, done) : R × Bytes × Bool :=
-      if cl > 0 && bb0.length + l > maxPacket then
-        let r := if bb0.length > 0 then send r bb0 else r
+    if cl > 0 && bb0.length + l > maxPacket then
+      match sendCached g r bb0 with
+      | (r, false) => (r, .errConn)
+      | (r, true) =>
         if l ≥ maxPacket then
-          (send { r with bodyWritten := r.bodyWritten + l, bodyBuffer := none } data, [], true)
-        else (r, [], false)
-      else (r, bb0, false)
-    if done then (r, .ok l) else
-    let bb := bb0 ++ data
-    let r := { r with bodyWritten := r.bodyWritten + l, bodyBuffer := some bb }
-    if cl > 0 && bb.length ≥ maxPacket then (send { r with bodyBuffer := some [] } bb, .ok bb.length)
-    else (r, .ok l)
+          sendDirect g { r with bodyWritten := r.bodyWritten + l, bodyBuffer := none } data
+        else appendTail g r [] data cl
+    else appendTail g r bb0 data cl
 
-/-- http.Flusher -/
-def flushOp (g : Cfg) (r : R) : R :=
-  let r := eoncodeHead g (checkChunked g (writeHeader g r 200))
-  let r := match r.buffer with
-    | some b => if b.length > 0 then { send r b with buffer := some [] } else r
-    | none => r
-  match r.bodyBuffer with
-    | some b => if b.length > 0 then { send r b with bodyBuffer := some [] } else r
-    | none => r
+/-- Write, identity framing, after contentLength() answered `cl` -/
+def writeIdent (g : Cfg) (r : R) (data : Bytes) (cl : Nat) : R × WRes :=
+  if cl > 0 && r.bodyWritten + data.length > cl then (r, .errCL) else
+  match takeHead g r data.length cl with
+  | (r, false) => (r, .errConn)
+  | (r, true) => appendBody g r data cl
 
-/-- ServerProcessor.flushResponse (not hijacked, no conn errors) -/
-def finish (g : Cfg) (r : R) : R :=
-  let r := eoncodeHead g (checkChunked g (writeHeader g r 200))
-  if !r.chunked then
-    let r := match r.buffer with
-      | some hb =>
-        let r := match r.bodyBuffer with
-          | some bb =>
-            if bb.length > 0 then
-              if hb.length + bb.length > maxPacket then { send r hb with buffer := some bb, bodyBuffer := none }
-              else { r with buffer := some (hb ++ bb), bodyBuffer := none }
-            else r
-          | none => r
-        match r.buffer with
-        | some b => { send r b with buffer := none }
-        | none => r
-      | none => r
-    match r.bodyBuffer with
-    | some bb => if bb.length > 0 then { send r bb with bodyBuffer := none } else r
-    | none => r
-  else
-    let pd := match r.buffer with | some b => b | none => []
+/-- Write after `WriteHeader(200); checkChunked(); hasBody = true` -/
+def writeBody (g : Cfg) (r : R) (data : Bytes) : R × WRes :=
+  if r.chunked then writeChunk g r data else
+  match contentLength r with
+  | (r, none) => (r, .errParse)
+  | (r, some cl) => writeIdent g r data cl
+
+/-- Response.Write (WriteString is the same function) -/
+def write (g : Cfg) (r : R) (data : Bytes) : R × WRes :=
+  if data.length == 0 then (r, .ok 0) else
+  writeBody g { checkChunked g (writeHeader200 r) with hasBody := true } data
+
+/-! ### ReadFrom -/
+
+inductive RKind | plain | file | limited
+  deriving Repr, DecidableEq
+
+/-- io.Copy to the conn: 32 KiB reads, one conn write each; stops at the first failing write -/
+def copyLoop (g : Cfg) : Nat → R → Bytes → Nat → R × Nat × Bool
+  | 0, r, _, w => (r, w, true)
+  | f+1, r, d, w =>
+    if d == [] then (r, w, true) else
+    let c := d.take 32768
+    let (r, ok) := send g r c
+    if ok then copyLoop g f r (d.drop 32768) (w + c.length) else (r, w, false)
+
+/-- Response.ReadFrom; `data` = the n bytes the reader yields -/
+def readFrom (g : Cfg) (r : R) (k : RKind) (data : Bytes) : R × WRes :=
+  let r := writeHeader200 r
+  let r := eoncodeHead g { r with hasBody := true }
+  match r.buffer with
+  | none => (r, .panic)
+  | some b =>
+    let (r, ok) := send g r b
     let r := { r with buffer := none }
-    if r.trailer.isEmpty then send r (pd ++ str "0\r\n\r\n")
+    if !ok then (r, .errConn) else
+    if k == .limited && data.length == 0 then (r, .ok 0) else
+    if g.sendfile && k != .plain then sendDirect g r data
     else
-      let t := r.trailer.foldl (fun d (kv : Bytes × Bytes) => d ++ kv.1 ++ str ": " ++ kv.2 ++ CRLF) (pd ++ str "0\r\n")
-      send r (t ++ CRLF)
+      let (r, w, ok) := copyLoop g (data.length + 1) r data 0
+      if ok then (r, .ok w) else (r, .errCopy w)
+
+/-! ### Flush (http.Flusher) -/
+
+/-- Flush, first paragraph: the head buffer -/
+def flushBuf (g : Cfg) (r : R) : R :=
+  match r.buffer with
+  | some b =>
+    if b.length > 0 then
+      let (r, ok) := send g r b
+      if ok then { r with buffer := some [] } else { r with buffer := none }
+    else r
+  | none => r
+
+/-- Flush, second paragraph: the body buffer -/
+def flushBodyBuf (g : Cfg) (r : R) : R :=
+  match r.bodyBuffer with
+  | some b =>
+    if b.length > 0 then
+      let (r, ok) := send g r b
+      if ok then { r with bodyBuffer := some [] } else { r with bodyBuffer := none }
+    else r
+  | none => r
+
+def flushOp (g : Cfg) (r : R) : R :=
+  flushBodyBuf g (flushBuf g (eoncodeHead g (checkChunked g (writeHeader200 r))))
+
+/-! ### flushResponse -/
+
+/-- flush, identity: head and body buffer both pending (`buffer = some hb`): send the head alone and let
+the body buffer take its place, or append the body to the head -/
+def mergeBody (g : Cfg) (r : R) (hb : Bytes) : R × Bool :=
+  match r.bodyBuffer with
+  | some bb =>
+    if bb.length > 0 then
+      if hb.length + bb.length > maxPacket then
+        let (r, ok) := send g r hb
+        if ok then ({ r with buffer := some bb, bodyBuffer := none }, true)
+        else ({ r with buffer := none, bodyBuffer := none }, false)
+      else ({ r with buffer := some (hb ++ bb), bodyBuffer := none }, true)
+    else (r, true)
+  | none => (r, true)
+
+def mergeStep (g : Cfg) (r : R) : R × Bool :=
+  match r.buffer with
+  | some hb => mergeBody g r hb
+  | none => (r, true)
+
+/-- conn.Write(*res.buffer); Free; nil -/
+def sendFreeBuffer (g : Cfg) (r : R) : R × Bool :=
+  match r.buffer with
+  | some b =>
+    let (r, ok) := send g r b
+    ({ r with buffer := none }, ok)
+  | none => (r, true)
+
+/-- the same for a non-empty body buffer -/
+def sendFreeBody (g : Cfg) (r : R) : R × Bool :=
+  match r.bodyBuffer with
+  | some bb =>
+    if bb.length > 0 then
+      let (r, ok) := send g r bb
+      ({ r with bodyBuffer := none }, ok)
+    else (r, true)
+  | none => (r, true)
+
+/-- Response.flush, identity branch; `false` = error -/
+def flushIdentity (g : Cfg) (r : R) : R × Bool :=
+  let p := mergeStep g r
+  if !p.2 then (p.1, false) else
+  let q := sendFreeBuffer g p.1
+  if !q.2 then (q.1, false) else sendFreeBody g q.1
+
+/-- the trailer block of the last chunk: value = current header value if there is one, else the captured one -/
+def trailerLines (r : R) : Bytes :=
+  (r.trailer.map fun kv => headerLine kv.1 (match hget r.header kv.1 with | v :: _ => v | [] => kv.2)).flatten
+
+def lastChunk (r : R) : Bytes :=
+  if r.trailer.isEmpty then str "0\r\n\r\n" else str "0\r\n" ++ trailerLines r ++ CRLF
+
+/-- Response.flush, chunked branch -/
+def flushChunked (g : Cfg) (r : R) : R × Bool :=
+  let pd := match r.buffer with | some b => b | none => []
+  let r := { r with buffer := none }
+  send g r (pd ++ lastChunk r)
+
+/-- ServerProcessor.flushResponse (not hijacked): returns the final state and whether conn.Close was called -/
+def finish (g : Cfg) (r : R) : R × Bool :=
+  let r := eoncodeHead g (checkChunked g (writeHeader200 r))
+  let (r, ok) := if r.chunked then flushChunked g r else flushIdentity g r
+  (r, !ok || g.reqClose)
+
+/-! ### handler programs -/
 
 inductive Op
-  | setHeader (k v : Bytes) | writeHeader (code : Nat) | write (data : Bytes) | flush
+  | setHeader (k v : Bytes) | addHeader (k v : Bytes) | delHeader (k : Bytes)
+  | writeHeader (code : Nat) (st : Bytes) | write (data : Bytes) | flush
+  | readFrom (k : RKind) (data : Bytes)
 
 def step (g : Cfg) (r : R) : Op → R × Option WRes
   | .setHeader k v => ({ r with header := hset r.header k v }, none)
-  | .writeHeader c => (writeHeader g r c, none)
+  | .addHeader k v => ({ r with header := hadd r.header k v }, none)
+  | .delHeader k => ({ r with header := hdel r.header k }, none)
+  | .writeHeader c st => (writeHeader r c st, none)
   | .write d => let (r, w) := write g r d; (r, some w)
   | .flush => (flushOp g r, none)
+  | .readFrom k d => let (r, w) := readFrom g r k d; (r, some w)
+
+/-- run a program (a panic ends the handler: the remaining ops do not run) -/
+def run (g : Cfg) : R → List Op → R × List (Option WRes)
+  | r, [] => (r, [])
+  | r, op :: ops =>
+    let (r, o) := step g r op
+    if o == some .panic then (r, [o]) else
+    let (r, os) := run g r ops
+    (r, o :: os)
 
 end Resp
